@@ -37,7 +37,8 @@ def evolve(rnd, g, ir, compatible_only):
     unions = [n for _, _, n in pos if n["k"] == "union"]
     named = [n for _, _, n in pos if n["k"] in ("record", "enum", "fixed")]
     steps = ["reorder", "add_default", "drop_field", "rename_alias", "promote", "widen_union", "wrap_union", "enum_add", "enum_remove_default",
-             "rename_type_alias", "change_ns", "field_alias_swap", "union_reorder", "hoist_def", "hoist_def"]
+             "rename_type_alias", "change_ns", "field_alias_swap", "union_reorder", "hoist_def", "hoist_def", "rename_evolve_referenced",
+             "rename_evolve_referenced"]
     if not compatible_only:
         steps += ["add_nodefault", "demote", "enum_remove", "fixed_size", "rename_field", "narrow_union", "rename_type", "kind_change"] * 1
     rnd.shuffle(steps)
@@ -181,6 +182,37 @@ def evolve(rnd, g, ir, compatible_only):
             ir["fields"].insert(0, f)
             if not normalize_defs(ir):
                 return ir, None
+            return ir, st
+        elif st == "rename_evolve_referenced":
+            # a named type that is also used by reference is renamed (alias) or moved to another namespace, and its definition evolves:
+            # every occurrence, inline or by name, must be resolved against the reader's new definition
+            refd = {n["full"] for _, _, n in pos if n["k"] == "ref"}
+            cands = [n for n in named if n["full"] in refd and n["k"] in ("enum", "record") and n is not ir]
+            if not cands:
+                continue
+            n = rnd.choice(cands)
+            old = n["full"]
+            simple = old.rsplit(".", 1)[-1]
+            if rnd.random() < 0.5:
+                newns = rnd.choice(["other.ns", "q"])
+                new = newns + "." + simple
+                n["ns"] = newns
+            else:
+                new = (n["ns"] + "." if n["ns"] else "") + simple + "Renamed"
+                n["aliases"] = list(n.get("aliases", [])) + [rnd.choice([old, simple])]
+            rename_everywhere(ir, g, old, new)
+            if n["k"] == "enum":
+                if len(n["syms"]) >= 2 and rnd.random() < 0.7:
+                    gone = rnd.choice(n["syms"])
+                    n["syms"] = [s for s in n["syms"] if s != gone]
+                    n["hasdef"] = True
+                    n["default"] = n["syms"][-1]
+                else:
+                    n["syms"] = n["syms"] + ["EVOLVED"]
+            else:
+                n["fields"].insert(rnd.randint(0, len(n["fields"])),
+                                   {"name": "evolved_%d" % rnd.randint(0, 99), "type": {"k": "prim", "name": "string"}, "hasdef": True,
+                                    "default": rnd.choice(["", "dflt é"]), "aliases": []})
             return ir, st
         elif st == "field_alias_swap":
             continue
